@@ -28,6 +28,7 @@ from gen import docs as D
 from gen import queries as Q
 from ref.orderings import Permitted
 from ref.orderings import TooBig
+from ref.structure import Structure
 
 PROPERTY = "C17"
 LEVEL = "exploration"
@@ -213,8 +214,44 @@ def run_stream(text: str, doc: Any, sseed: int, profile: Dict[str, Any], feed: O
     return locs, None, ident, sim.log, sim.draws
 
 
+def run_tapped(text: str, doc: Any, sseed: int, profile: Dict[str, Any], feed: Optional[list] = None):
+    """The same evaluation driven one segment at a time, recording what flows
+    between the segments (for the structural check, which needs no enumeration).
+
+    Returns (taps | None, exc | None, trace).  taps is None when the compiled
+    query does not expose segments/resolve (then the structural check is skipped).
+    """
+    assert _NENV is not None
+    sim = simrandom.SimRandom(sseed, profile, feed)
+    sim.cap = 50_000
+    simrandom.install(sim)
+    try:
+        try:
+            compiled = _NENV.compile(text)
+            segs = getattr(compiled, "segments", None)
+            if segs is None or not all(hasattr(g, "resolve") for g in segs):
+                return None, None, sim.log
+            nodes = [jp.JSONPathNode(value=doc, location=(), root=doc)]
+            taps = [[()]]
+            for g in segs:
+                nodes = list(g.resolve(nodes))
+                taps.append([tuple(n.location) for n in nodes])
+            return taps, None, sim.log
+        except simrandom.ChoiceBudgetExceeded:
+            return None, "no-termination: more than 50000 random decisions consumed", sim.log[:200]
+        except Exception as exc:  # noqa: BLE001
+            return None, type(exc).__name__, sim.log
+    finally:
+        simrandom.uninstall()
+
+
 def _viol(cls: str, what: str, payload: Dict[str, Any], sig_extra: str = "") -> Dict[str, Any]:
     return {"class": cls, "signature": f"C17:{cls}{sig_extra}", "what": what, "payload": payload}
+
+
+def _short(doc: Any) -> str:
+    r = repr(doc)
+    return r if len(r) <= 300 else r[:300] + "..."
 
 
 def _jsonable_seq(seq) -> List[List[Any]]:
@@ -230,6 +267,7 @@ def check_case(
     exhaust_seed: int = 0,
     corpus_index: Optional[int] = None,
     exhaust_cap: int = 64,
+    force_tapped: Optional[bool] = None,
 ) -> Dict[str, Any]:
     """Validity on the given streams; if exhaust_budget > 0 also reached-set search."""
     text = Q.render(qast)
@@ -258,16 +296,35 @@ def check_case(
     last_new = 0
     n_streams = 0
 
-    def one(sseed: int, profile: Dict[str, Any], feed: Optional[list]) -> None:
+    structure = Structure(qast, doc, lambda t: _locs_det(t, doc))
+
+    def one(sseed: int, profile: Dict[str, Any], feed: Optional[list], tapped: bool = False) -> None:
         nonlocal last_new, n_streams
         n_streams += 1
-        locs, exc, ident, trace, draws = run_stream(text, doc, sseed, profile, feed)
+        if tapped:
+            taps, exc, trace = run_tapped(text, doc, sseed, profile, feed)
+            st["streams_tapped"] += 1
+            if taps is None and exc is None:
+                st["structural_check_unavailable"] += 1
+                return
+            locs, ident, draws = (taps[-1] if taps is not None else None), True, 0
+            if taps is not None:
+                err = structure.check(taps)
+                if err is not None:
+                    out["violations"].append(
+                        _viol("invalid:structure", f"{text} over {_short(doc)}: {err}", {"kind": "validity", "tapped": True, "query": qast, "doc": doc, "stream": {"seed": sseed, "profile": profile, "trace": trace}})
+                    )
+                    out["events"].append(["structure", err[:80]])
+                    return
+        else:
+            locs, exc, ident, trace, draws = run_stream(text, doc, sseed, profile, feed)
         st["streams"] += 1
         out["steps"] += len(trace)
         for t in trace:
             st["decisions_" + t[0]] += 1
         payload = {
             "kind": "validity",
+            "tapped": tapped,
             "query": qast,
             "doc": doc,
             "stream": {"seed": sseed, "profile": profile, "trace": trace},
@@ -301,8 +358,8 @@ def check_case(
                 last_new = n_streams
             reached[seq] += 1
 
-    for sseed, profile, feed in streams:
-        one(sseed, profile, feed)
+    for k, (sseed, profile, feed) in enumerate(streams):
+        one(sseed, profile, feed, tapped=(k % 2 == 1) if force_tapped is None else force_tapped)
 
     if exhaust_budget and permitted is not None and 2 <= len(permitted) <= exhaust_cap and not out["violations"]:
         st["exhaust_cases"] += 1
@@ -374,8 +431,11 @@ def _gen_random_case(rng) -> Tuple[Dict[str, Any], Any]:
         else:
             m = rng.choice((5, 6, 7, 9))
             doc = {f"k{i}": (i if rng.random() < 0.6 else [i]) for i in range(1, m + 1)}
-    else:
+    elif shape < 0.9:
         doc = D.random_tree(rng, max_nodes=rng.choice((16, 24, 40)), max_depth=5, p_dict=0.5, max_width=3)
+    else:
+        # big: beyond any enumeration -- judged by the multiset and the structural check
+        doc = D.random_tree(rng, max_nodes=rng.choice((80, 150, 300)), max_depth=rng.choice((4, 6, 8)), p_dict=rng.choice((0.3, 0.6)), max_width=rng.choice((5, 7, 9)), keys=("a", "b", "c", "d", "e", "f", "g", "h", "i"))
     f = Q.Features(
         desc=rng.random() < 0.8,
         filters=rng.random() < 0.6,
@@ -438,7 +498,7 @@ def replay(payload: Dict[str, Any]) -> List[Dict[str, Any]]:
     q, doc = payload["query"], payload["doc"]
     if payload["kind"] == "validity":
         s = payload["stream"]
-        res = check_case(q, doc, [(s["seed"], s["profile"], s.get("trace"))])
+        res = check_case(q, doc, [(s["seed"], s["profile"], s.get("trace"))], force_tapped=bool(payload.get("tapped")))
         return res["violations"]
     res = check_case(q, doc, [], exhaust_budget=payload["budget"], exhaust_seed=payload["exhaust_seed"], corpus_index=payload.get("corpus_index"), exhaust_cap=payload.get("exhaust_cap", 64))
     return res["violations"]
